@@ -98,7 +98,7 @@ func (c *Ctx) opsOfCall(f *ir.Func, call ssa.CallInstruction, depth int) []Round
 	if callee == nil {
 		callee = ir.FuncAlias(call.Common().Value)
 	}
-	if callee == nil || callee.Blocks == nil || depth > 4 {
+	if callee == nil || callee.Blocks == nil || depth > c.summaryDepth() {
 		return nil
 	}
 	if callee.Pkg == nil || !strings.Contains(callee.Pkg.Pkg.Path(), "osmosis") {
@@ -608,4 +608,12 @@ func (c *Ctx) Direction(fnSpec, want, desc string) {
 		return
 	}
 	c.add("D", fnSpec, role, desc, report.OK, "returns: "+strings.Join(got, ","), c.fnPos(f))
+}
+
+// summaryDepth: how deep helper bodies are summarised for rounding classes (deeper in the thorough tier).
+func (c *Ctx) summaryDepth() int {
+	if c.Tier == "thorough" {
+		return 7
+	}
+	return 4
 }
